@@ -145,6 +145,9 @@ func (vc *FuncVC) symbolicRun() {
 		vc.entryVars[fv.Name()] = v
 	}
 	vc.initBuiltinGhost(st)
+	st.ghost["inDefers"] = V{"false", SBool, nil}
+	st.ghost["lastSelIdx"] = V{"(- 1)", SInt, nil}
+	st.ghost["lastRecvOk"] = V{"false", SBool, nil}
 	func() {
 		defer func() {
 			if r := recover(); r != nil {
